@@ -76,6 +76,7 @@ const (
 	opWriteC opKind = 'c'
 	opRetx   opKind = 'r' // a copy of the peer's final handshake datagram arrives
 	opUpdate opKind = 'k' // UpdateKeys (1.3 only)
+	opFail   opKind = 'f' // the transport fails this endpoint's next WriteTo (transient local send error); at most once per burst
 	opClose  opKind = 'x' // Close (close_notify); always last
 )
 
@@ -216,6 +217,8 @@ func c09Run(t *testing.T, p *world.PKI, cc cfgCase, clientSends bool, seq string
 					defer cancel()
 					return x.Conn.UpdateKeys(ctx, dtls.KeyUpdateOptions{})
 				}))
+			case opFail:
+				x.PC.FailNextWrites(1, errors.New("injected transient send error"))
 			case opClose:
 				ops = append(ops, w.GoNoSkew("Close", func(*world.Op) error { return x.Conn.Close() }))
 			}
@@ -488,9 +491,9 @@ func TestC09(t *testing.T) {
 	p := world.GetPKI(t)
 	var cases []run.Case
 	for _, cc := range configs(env.Thorough()) {
-		alpha := []opKind{opWriteA, opWriteB, opWriteC, opRetx, opClose}
+		alpha := []opKind{opWriteA, opWriteB, opWriteC, opRetx, opFail, opClose}
 		if cc.v.V13 {
-			alpha = []opKind{opWriteA, opWriteB, opWriteC, opRetx, opUpdate, opClose}
+			alpha = []opKind{opWriteA, opWriteB, opWriteC, opRetx, opUpdate, opFail, opClose}
 		}
 		depth := 3
 		if env.Thorough() {
@@ -524,5 +527,5 @@ func TestC09(t *testing.T) {
 			}
 		}
 	}
-	run.Main(t, "C09", cases, map[string]any{"configs": len(configs(env.Thorough())), "ops_alphabet": "Write a/b/c, peer retransmission, UpdateKeys (1.3), Close", "max_concurrent_ops": 3, "holds": "none, emission 0, 1, 2"})
+	run.Main(t, "C09", cases, map[string]any{"configs": len(configs(env.Thorough())), "ops_alphabet": "Write a/b/c, peer retransmission, UpdateKeys (1.3), transient send failure, Close", "max_concurrent_ops": 3, "holds": "none, emission 0, 1, 2"})
 }
